@@ -172,6 +172,16 @@ def check_result(lines, res, msyms, pie, unreachable=False):
     w = asmmt.fresh_proxies(res, msyms)
     if w:
         return w
+    # an ordinary instruction at the end of a block falls through to the code that follows it (a label or .align cut the block there)
+    for name, sec in res.sections.items():
+        for b, nxt in zip(sec.blocks, sec.blocks[1:]):
+            if not (isinstance(b, gtirb.CodeBlock) and isinstance(nxt, gtirb.CodeBlock) and b.size and nxt.size):
+                continue
+            lastit = [ln for (s_, o, ln, z) in items if s_ == name and z and o + z == b.offset + b.size]
+            first_next = [ln for (s_, o, ln, z) in items if s_ == name and o == nxt.offset and z]
+            if lastit and lastit[0].split()[0] in ("nop", "lea", "mov", "movl", "movw", "cmpb") and first_next and first_next[0].split()[0] in MN:
+                if not any(e.target is nxt and e.label.type == gtirb.Edge.Type.Fallthrough for e in res.cfg.out_edges(b)):
+                    return f"`{lastit[0]}` at the end of the block at {name}+{b.offset} does not fall through to the code that follows it"
     # ---- data conversion: a block that holds no instruction and that nothing reaches is data (unless it starts an executable section)
     for name, sec in res.sections.items():
         for k, b in enumerate(sec.blocks):
